@@ -120,6 +120,21 @@ def main(run):
         seen = G.reach(ids[0])
         if not any(target in G.nodes[x]['path'] and '::new' in G.nodes[x]['path'] for x in seen):
             run.violation(f'entry|{root}|iterator', f'{root} does not go through PathImpl::normalized_segments (NormalizedSegmentsImpl::new): the entry points of normalisation no longer share one implementation')
+    # every in-place entry point (handle and owned wrapper, both families) is the in-place rewrite, not the copy
+    inplace = pathmut.PRE + 'normalize'
+    for root in ("uri::path_mut::PathMut::<'a>::normalize", "iri::path_mut::PathMut::<'a>::normalize", 'uri::path::PathBuf::normalize', 'iri::path::PathBuf::normalize'):
+        ids = G.roots.get(root)
+        run.count('entry_points')
+        if not ids:
+            run.violation(f'entry|{root}', f'{root} is not in the instance graph')
+            continue
+        is_copy = lambda nd: nd['path'].endswith('::normalized') and 'PathImpl' in nd['path']
+        seen = G.reach(ids[0], stop=is_copy)          # the copy is not a route to the in-place rewrite (it adds the trailing "/" of a final dot segment)
+        names = {G.nodes[x]['path'] for x in seen if not is_copy(G.nodes[x])}
+        if not any(nm.startswith('common::path_mut::PathMutImpl') and nm.endswith('::normalize') for nm in names):
+            via_copy = any(is_copy(G.nodes[x]) for x in seen)
+            run.violation(f'entry|{root}|inplace', f'{root} does not go through the in-place rewrite PathMutImpl::normalize (whose result is the normalised sequence): '
+                          + ('it goes through the copy PathImpl::normalized, which renders a trailing "/" after a final dot segment' if via_copy else 'another route'))
     # the sequence clause: the step of the normalising fold is the RFC 3986 5.2.4 / Errata 4547 step (Engine S on one loop iteration)
     from .. import normstep
     probs, nst = normstep.analyse(P)
